@@ -38,6 +38,10 @@ class AbsSeqs:
         return fs
 
     def abs_mem(self, L, x, st):
+        if isinstance(x, SOpt):
+            return z3.And(z3.Not(x.isnone), self.abs_mem(L, x.inner, st))
+        if isinstance(x, SNone):
+            return z3.BoolVal(False)
         if isinstance(x, (SInt, SRef, SVal, SStr)):
             return L.mem(x.t)
         raise Unsupported('membership of %r in abstract collection' % (x,))
